@@ -4,11 +4,11 @@ package main
 // SQL-RANGE, SQL-NUM, MARKER-AGREE.
 
 import (
-	"strconv"
 	"fmt"
 	"go/types"
 	"regexp"
 	"sort"
+	"strconv"
 	"strings"
 
 	"golang.org/x/tools/go/ssa"
@@ -1704,6 +1704,181 @@ func ruleMARKER(c *Ctx, r *Report) {
 		}
 	}
 	r.floor(rule, "marker comparisons", n, 4)
+}
+
+// rangeClosure: the range functions of both modes and, transitively, the package-level driver functions
+// and closures they call or hand on.
+func (c *Ctx) rangeClosure(pt *PGTable, dr *DriverRoles) []*ssa.Function {
+	var fns []*ssa.Function
+	if e := pt.Eff["expr.Range"]; e != nil && e.Fn != nil {
+		fns = append(fns, e.Fn)
+	}
+	if dr.RangeParam != nil {
+		fns = append(fns, dr.RangeParam)
+	}
+	seen := map[*ssa.Function]bool{}
+	for _, f := range fns {
+		seen[f] = true
+	}
+	for i := 0; i < len(fns); i++ {
+		f := fns[i]
+		for _, b := range f.Blocks {
+			for _, in := range b.Instrs {
+				if call, ok := in.(*ssa.Call); ok {
+					if h := call.Call.StaticCallee(); h != nil && fnPkgPath(h) == pkgDriver && !seen[h] && h.Signature.Recv() == nil {
+						seen[h] = true
+						fns = append(fns, h)
+					}
+				}
+				for _, op := range in.Operands(nil) {
+					if mc, ok := (*op).(*ssa.MakeClosure); ok {
+						if h, ok := mc.Fn.(*ssa.Function); ok && !seen[h] {
+							seen[h] = true
+							fns = append(fns, h)
+						}
+					}
+				}
+			}
+		}
+	}
+	return fns
+}
+
+// BOUND-UNIT (C03/C04): the numeric bound parsers are read by SQL-RANGE as units ("both ends are numbers or
+// open"). That reading is only right if a unit really ignores a failed number parse for exactly the end that
+// is the open marker: on every path on which the unit reports success, each number parse of a range end
+// either succeeded or that same end was compared equal to the marker; and the numbers are handed back in the
+// order of the ends.
+func ruleBOUNDUNIT(c *Ctx, r *Report) {
+	const rule = "BOUND-UNIT"
+	r.doc(rule, "in every helper of the range functions that parses the range ends as numbers and reports an error: on each path that returns a nil error, every strconv number parse of an end has its own error tested nil or that same end compared equal to the open-bound marker (the error of one end is never excused by the other end being open); the parsed numbers are returned in the order of the ends")
+	pt := c.pgPreamble(r, rule)
+	dr := c.driverRoles()
+	if pt == nil || dr.Err != "" {
+		return
+	}
+	isParse := func(call *ssa.Call) bool {
+		switch calleeFullName(call) {
+		case "strconv.Atoi", "strconv.ParseInt", "strconv.ParseFloat", "strconv.ParseUint":
+			return true
+		}
+		// a parse function handed in as a value: func(string, …) (number, error)
+		if call.Call.StaticCallee() == nil && !call.Call.IsInvoke() {
+			if sig, ok := call.Call.Value.Type().Underlying().(*types.Signature); ok && sig.Params().Len() >= 1 && isStringType(sig.Params().At(0).Type()) &&
+				sig.Results().Len() == 2 && isErrorType(sig.Results().At(1).Type()) {
+				if b, ok := sig.Results().At(0).Type().Underlying().(*types.Basic); ok && b.Info()&types.IsNumeric != 0 {
+					return true
+				}
+			}
+		}
+		return false
+	}
+	units := 0
+	for _, h := range c.rangeClosure(pt, dr) {
+		res := h.Signature.Results()
+		if res.Len() < 2 || !isErrorType(res.At(res.Len()-1).Type()) {
+			continue
+		}
+		has := false
+		for _, b := range h.Blocks {
+			for _, in := range b.Instrs {
+				if call, ok := in.(*ssa.Call); ok && isParse(call) {
+					has = true
+				}
+			}
+		}
+		// the range functions themselves return SQL text, not numbers: their decisions are SQL-RANGE's matter
+		if !has || isStringType(res.At(0).Type()) {
+			continue
+		}
+		units++
+		paths, complete := c.enumPathsOpt(h, 5000, &InlineOpts{None: true})
+		if !complete {
+			r.bad(rule, fnName(h)+"|extract", c.pos(h.Pos()), "too many paths")
+			continue
+		}
+		type verdict struct {
+			bad bool
+			pos string
+			msg string
+		}
+		got := map[string]*verdict{}
+		order := map[string]*verdict{}
+		for _, p := range paths {
+			if p.Ret == nil {
+				continue
+			}
+			ev, _ := c.resolveE(p.Ret.Results[res.Len()-1], p.Env)
+			if cst, ok := ev.(*ssa.Const); !ok || !cst.IsNil() {
+				continue
+			}
+			var ends []string
+			for _, pc := range p.Calls {
+				if !isParse(pc.Call) || len(pc.Args) == 0 {
+					continue
+				}
+				end := pc.Args[0]
+				errKey := c.key(pc.Call, p.Env) + "#1"
+				excused := false
+				for _, a := range p.Atoms {
+					if a.Kind == "nil" && a.Pos && a.Subj == errKey {
+						excused = true
+					}
+					if a.Kind == "cmp" && a.Op == "==" && ((a.Subj == end && strings.Contains(a.Val, "*")) || (a.Val == end && strings.Contains(a.Subj, "*"))) {
+						excused = true
+					}
+				}
+				key := fnName(h) + "|parse(" + end + ")"
+				v := got[key]
+				if v == nil {
+					v = &verdict{pos: c.instrPos(pc.Call)}
+					got[key] = v
+				}
+				if !excused && !v.bad {
+					v.bad = true
+					v.msg = fmt.Sprintf("%s reports success on a path [%s] on which the number parse of range end %s may have failed and %s was not compared with the open-bound marker: a failed parse of one end is excused by a test on something else, so SQL-RANGE's reading of this helper (\"both ends are numbers or open\") does not hold and a half-open range with a non-integer bound falls through to the string form", fnName(h), atomsText(p.Atoms), end, end)
+				}
+				ends = append(ends, end)
+			}
+			// numbers handed back in the order of the ends
+			var outs []string
+			for i := 0; i < res.Len()-1; i++ {
+				k := c.key(p.Ret.Results[i], p.Env)
+				for _, e := range ends {
+					if strings.Contains(k, "("+e+")#0") || strings.Contains(k, "("+e+",") && strings.HasSuffix(k, "#0") {
+						outs = append(outs, e)
+					}
+				}
+			}
+			if len(outs) == 2 && strings.HasPrefix(outs[0], "$") && strings.HasPrefix(outs[1], "$") {
+				key := fnName(h) + "|result-order"
+				v := order[key]
+				if v == nil {
+					v = &verdict{pos: c.instrPos(p.Ret)}
+					order[key] = v
+				}
+				if outs[0] > outs[1] {
+					v.bad = true
+					v.msg = fmt.Sprintf("%s returns the number parsed from %s before the one parsed from %s: lower and upper bound are exchanged", fnName(h), outs[0], outs[1])
+				}
+			}
+		}
+		for _, m := range []map[string]*verdict{got, order} {
+			var keys []string
+			for k := range m {
+				keys = append(keys, k)
+			}
+			sort.Strings(keys)
+			for _, k := range keys {
+				if m[k].bad {
+					r.badW(rule, k, m[k].pos, m[k].msg, "`a:[1.5 TO *]` → `\"a\" BETWEEN 1.5 AND '*'`")
+				} else {
+					r.ok(rule, k, m[k].pos, "error tested or the same end is the open marker on every success path")
+				}
+			}
+		}
+	}
+	r.floor(rule, "numeric bound parsers", units, 1)
 }
 
 // SPLIT-SAFE (C02/C03): the range functions re-split the already serialised boundary text. That is
